@@ -152,7 +152,7 @@ def _run_crosshair(module, func, timeout, path_timeout, env):
     t0 = time.time()
     try:
         p = subprocess.run(cmd, env=e, cwd=VERIF, capture_output=True, text=True,
-                           timeout=timeout * 3 + 120)
+                           timeout=timeout * 8 + 600)
         out, err, rc = p.stdout, p.stderr, p.returncode
     except subprocess.TimeoutExpired as ex:
         out, err, rc = (ex.stdout or b"").decode("utf8", "replace") if isinstance(ex.stdout, bytes) else (ex.stdout or ""), "wall timeout", -9
